@@ -276,6 +276,82 @@ func scopeCasesFor(p Prog, src, be, outdir string) (cases []ScopeCase, terms []s
 
 var _ = idlast.Program(nil)
 
+// RejectCase: the backend refused the program with the MustReserve panic ("failed to reserve",
+// recovered in Scope.init, exit status 2). The model must raise the reserve failure for one of
+// the program's files.
+type RejectCase struct {
+	Kind    string   `json:"kind"`
+	Prog    Prog     `json:"program"`
+	Backend string   `json:"backend"`
+	Output  string   `json:"thriftgo_output"`
+	IDL     []string `json:"idl_files"`
+}
+
+func rejectCaseFor(p Prog, src, be, output string) (*RejectCase, string, error) {
+	if _, _, _, ok := scopeFlags(be); !ok {
+		return nil, "", nil
+	}
+	ast, err := frontEnd(src, p.Main)
+	if err != nil {
+		return nil, "", nil // rejected by the front end as well: not a table matter
+	}
+	cu := golang.NewCodeUtils(backend.DummyLogFunc())
+	cu.UseInitialisms(true)
+	var ol []string
+	for _, o := range strings.Split(be[strings.IndexByte(be, ':')+1:], ",") {
+		if o != "" {
+			ol = append(ol, o)
+		}
+	}
+	if err := cu.HandleOptions(ol); err != nil {
+		return nil, "", nil
+	}
+	style := cu.NamingStyle()
+	ident := func(raw string) string {
+		s, e := style.Identify(raw)
+		if e != nil {
+			return "?error?"
+		}
+		return s
+	}
+	ft := cu.Features()
+	idt, lft := map[string]string{}, map[string]string{}
+	var files, names []string
+	seen := map[*parser.Thrift]bool{}
+	for t := range ast.DepthFirstSearch() {
+		if seen[t] {
+			continue
+		}
+		seen[t] = true
+		f, ferr := astdump.FileChecked(t)
+		if ferr != nil {
+			return nil, "", ferr
+		}
+		files = append(files, f.Coq())
+		names = append(names, t.Filename)
+		for _, q := range queries(t, func(s string) string { return ident(trimDollar(s)) }) {
+			q = trimDollar(q)
+			if _, ok := idt[q]; ok {
+				continue
+			}
+			v := ident(q)
+			idt[q] = v
+			for _, x := range []string{v, v + "_"} {
+				if l, ok := lowerFirst(x); ok {
+					lft[x] = l
+				}
+			}
+		}
+	}
+	if len(output) > 300 {
+		output = output[:300]
+	}
+	term := fmt.Sprintf("RejectCase (Features %s %s %s %s %s)\n  %s\n  %s\n  %s",
+		coqfmt.Bool(ft.KeepUnknownFields), coqfmt.Bool(ft.GenDeepEqual), coqfmt.Bool(ft.GenerateSetter), coqfmt.Bool(ft.EnableNestedStruct), coqfmt.Bool(ft.CompatibleNames),
+		pairList(idt), pairList(lft), coqfmt.List(files))
+	return &RejectCase{Kind: "reject", Prog: p, Backend: be, Output: output, IDL: names}, term, nil
+}
+
 // scopeSelected samples the accepted runs that get scope cases.  Quick tier: the small corpus
 // programs under every option set, the large naming corpus under a rotating third and the
 // generated programs under a rotating quarter of the option sets; thorough tier: corpus under
@@ -311,7 +387,7 @@ func newScopeWriter(dir string, maxBytes int) *scopeWriter {
 	return &scopeWriter{dir: dir, maxBytes: maxBytes}
 }
 
-func (w *scopeWriter) Add(term string, desc ScopeCase) {
+func (w *scopeWriter) Add(term string, desc interface{}, tables int) {
 	if w.v == nil {
 		name := fmt.Sprintf("scope_%03d", len(w.Shards))
 		w.v, _ = os.Create(filepath.Join(w.dir, name+".v"))
@@ -329,7 +405,7 @@ func (w *scopeWriter) Add(term string, desc ScopeCase) {
 	w.n++
 	w.bytes += len(term)
 	w.Total++
-	w.Tables += 1 + len(desc.Declared.Types)
+	w.Tables += tables
 	if w.bytes >= w.maxBytes {
 		w.closeShard()
 	}
